@@ -800,7 +800,6 @@ package statefulset
 // errMarshal: an error of json.Marshal on the patch struct (cannot happen for this struct; assumed benign)
 //@ spec func errMarshal(e error) bool = errLocal(e)
 
-
 //@ extern k8s.io/client-go/kubernetes/typed/apps/v1:ControllerRevisionInterface.Patch@defaultStatefulSetControl.adoptControllerRevision
 //@   params c, ctx, name, pt, data, opts, subresources
 //@   results patched, perr
